@@ -11,6 +11,7 @@ CONSTANTS
   MaxBal = 2
   Kinds <- KindsSibM
   Ords <- OrdId3
+  AliasSafe = FALSE
   Window = FALSE
   NumOf <- Flat
 INVARIANT TypeOK
